@@ -5,7 +5,7 @@ import RTV.Model.UnitExtract
 `:`-separated sub-fields, `_` = empty list; strings are code points.
   ux.extract <stage pre|full> <src> <connector> <maxPrefixLen> <isCurrency> <isDimension>
              <pm start:len:text;..> <sm ..> <nums1 start:len:text;..> <nums2 ..> <cuts n|k,..> <nonUnit start:len;..>
-             <hasSeparate> <sep start:text;..> <ambTerm> <filt1> <filt2> <half 0101..> <lockstep 0|1>
+             <hasSeparate> <sep start:text;..> <ambTerm> <filt1> <filt2> <half 0101..> <pristineHalf 0|1> <lockstep 0|1>
              filt = `<scu hit texts t,t,..|_>|<key hit texts t,t,..|_>~<value matches start:len;..|_>|…` (one `~` group per
              dictionary entry, in order)
         -> `<results start:len:rel|n:text;..>#<unit_is_prefix flags as passed to _select_candidates>#<source after the comma rewrite>`  or err:IndexError
@@ -80,11 +80,11 @@ def parseERs (f : String) : List ER :=
     | _ => none
 
 def hUxExtract : Handler
-  | [stage, src, conn, mpl, isCur, isDim, pm, sm, n1, n2, cuts, nonUnit, hasSep, sep, amb, m1, m2, half, lockstep] =>
+  | [stage, src, conn, mpl, isCur, isDim, pm, sm, n1, n2, cuts, nonUnit, hasSep, sep, amb, m1, m2, half, pristine, lockstep] =>
     let c : Cfg := ⟨pySpace, parseCps conn, parseNat mpl, parseBool isCur, parseBool isDim⟩
     let i : Inputs := ⟨parseCps src, parseMRs pm, parseMRs sm, parseNums n1, parseNums n2, parseCuts cuts,
       parsePairs nonUnit, parseBool hasSep, parseSeps sep, parseCps amb, parseFilterSpec m1, parseFilterSpec m2, parseMask half,
-      parseBool lockstep⟩
+      parseBool pristine, parseBool lockstep⟩
     let r := if stage == "full" then extract c i else extractPre c i
     match r with
     | none => "err:IndexError"
